@@ -523,7 +523,7 @@ def run(tier, seed, replay=None):
     rep = C.Report("C16", tier, seed, "proof")
     C.setup_repo_import(seed)
     proof_ok = C.proof_part(rep, "Context/Properties_C16.v",
-                            ["Context/Model.vo", "Context/Corr.vo", "Context/Spec.vo", "Context/Proofs.vo"],
+                            ["Context/Model.vo", "Context/Corr.vo", "Context/Spec.vo", "Context/ProofsODict.vo", "Context/Proofs.vo", "Context/ProofsQueries.vo"],
                             ["Context"])
     vals = Vals()
     rng = random.Random(C.sub_seed(seed, "c16"))
